@@ -1,11 +1,8 @@
 (** C10: without the entity-free guard the canonical-text law is false of the faithful model (and of Types.py): the text "&amp;amp;" reads as
     the value "&amp;", which is written "&amp;" (unconvert does not escape; ET.tostring does), which reads as "&". *)
-From OfxV Require Import Base.Prelude Base.Digits Gen.ScalarsGen Model.PyDecimal Model.Scalars Model.ScalarsLex Proofs.ScalarsText Proofs.PyDecimalProofs Proofs.ScalarsProofs Proofs.ScalarsLexProofs.
+From OfxV Require Import Base.Prelude Base.Digits Gen.ScalarsGen Model.PyDecimal Model.Scalars Model.ScalarsLex Proofs.ScalarsText Proofs.PyDecimalProofs Proofs.ScalarsProofs Proofs.ScalarsLexProofs Proofs.ScalarsThms.
 Local Open Scope N_scope.
 Theorem T_canonical_fixed_point_unguarded_refuted : exists e s v w c w1,
   convert e (PStr s) = OK (v, w) /\ v <> PNone /\ unconvert e v = OK (Some c, w1) /\ convert e (PStr c) <> OK (v, w1).
-Proof.
-  exists (Elem (TString None true) false), (T "&amp;amp;"), (PStr (T "&amp;")), false, (T "&amp;"), false.
-  split; [vm_compute; reflexivity|]. split; [discriminate|]. split; [vm_compute; reflexivity|]. vm_compute. discriminate.
-Qed.
+Proof. exact T_canonical_fixed_point_unguarded_refuted_l. Qed.
 Print Assumptions T_canonical_fixed_point_unguarded_refuted.
